@@ -2,6 +2,8 @@ package main
 
 import (
 	"bufio"
+	"bytes"
+	"sort"
 	"context"
 	"encoding/hex"
 	"errors"
@@ -18,6 +20,7 @@ import (
 	"github.com/attestantio/dirk/services/checker"
 	"github.com/attestantio/dirk/util/verifhook"
 	spec "github.com/attestantio/go-eth2-client/spec/phase0"
+	e2wtypes "github.com/wealdtech/go-eth2-wallet-types/v2"
 )
 
 func coreStr(r core.Result) string {
@@ -241,6 +244,44 @@ func (w *world) exec(f []string) string {
 		return manyStr(rs, sigs)
 	case "restart":
 		w.restart()
+		return "ok"
+	case "list":
+		client := ""
+		if f[1] != "." {
+			client = unhexStr(f[1])
+		}
+		var paths []string
+		if f[2] != "-" {
+			for _, p := range strings.Split(f[2], ",") {
+				paths = append(paths, hs(p))
+			}
+		}
+		res, accts := w.lister.ListAccounts(ctx, creds(client, ""), paths)
+		var names []string
+		for _, a := range accts {
+			nm := ""
+			if wp, ok := a.(e2wtypes.AccountWalletProvider); ok {
+				nm = wp.Wallet().Name() + "/" + a.Name()
+			} else {
+				nm = "?/" + a.Name()
+			}
+			// each entry must carry its own name and public key
+			if _, fa, err := w.fetcher.FetchAccount(ctx, nm); err != nil || !bytes.Equal(fa.PublicKey().Marshal(), a.PublicKey().Marshal()) {
+				nm += "!"
+			}
+			names = append(names, hexOrDot([]byte(nm)))
+		}
+		sort.Strings(names)
+		out := "-"
+		if len(names) > 0 {
+			out = strings.Join(names, ",")
+		}
+		return coreStr(res) + " " + out
+	case "create":
+		pub, _, err := w.process.OnGenerate(ctx, creds(unhexStr(f[1]), ""), unhexStr(f[2]), []byte("pass"), 1, 1)
+		if err != nil || len(pub) == 0 {
+			return "err"
+		}
 		return "ok"
 	case "syncwrites":
 		return fmt.Sprintf("%v", w.rules.VerifSyncWrites())
